@@ -59,6 +59,23 @@ def build(cfg, probe=None, rng=None, fit=True):
     return t, a, probe
 
 
+BJ_ALGORITHMS = ["rwmh", "nuts", "rwmh_diag", "hmc", "rwmh"]
+
+
+def blackjax_kernel_options(cfg, k):
+    """Every algorithm branch of the BlackJAX front-end (scalar and per-coordinate random-walk scale, NUTS, HMC - the last two
+    served by gradient-free stand-ins), chosen by the configuration's seed unless the configuration names one."""
+    alg = cfg.get("bj_algorithm") or BJ_ALGORITHMS[int(cfg.get("rng_seed", 0)) % len(BJ_ALGORITHMS)]
+    d = len(cfg["target"]["coords"]) if isinstance(cfg.get("target"), dict) and "coords" in cfg["target"] else None
+    if alg == "rwmh_diag" and d:
+        return {"algorithm": "random_walk", "n_steps": k, "sigma": [0.3 + 0.05 * j for j in range(d)]}
+    if alg == "nuts":
+        return {"algorithm": "nuts", "n_steps": k, "step_size": 0.3}
+    if alg == "hmc":
+        return {"algorithm": "hmc", "n_steps": k, "step_size": 0.3, "num_integration_steps": 3}
+    return {"algorithm": "rwmh", "n_steps": k, "sigma": 0.3}
+
+
 def sample_kwargs(cfg, rng=None, callback=None, resume_from=None, ckpt_path=None):
     s = cfg["sampler"]
     kw = dict(cfg["opts"])
@@ -80,7 +97,7 @@ def sample_kwargs(cfg, rng=None, callback=None, resume_from=None, ckpt_path=None
 
         kw["rng"] = rng if rng is not None else np.random.default_rng(cfg["rng_seed"])
         kw["rng_key"] = jax.random.key(cfg["rng_seed"])
-        kw["sampler_kwargs"] = {"algorithm": "rwmh", "n_steps": k, "sigma": 0.3}
+        kw["sampler_kwargs"] = blackjax_kernel_options(cfg, k)
     if callback is not None:
         kw["checkpoint_callback"] = callback
         kw["checkpoint_every"] = cfg.get("ckpt_every") or 1
